@@ -17,6 +17,7 @@ import ast
 from ..callgraph import CallGraph
 from ..model import Program, walk_own, is_self_attr, dotted
 from ..report import AnalysisError
+from ..model import canon as K
 
 MESH = "hypnotoad/core/mesh.py"
 EQ = "hypnotoad/core/equilibrium.py"
@@ -76,10 +77,10 @@ def run(rep, tier):
     rep.ob("R1", "the non-orthogonal options are replaced only by the two reset methods", sorted(set(wr)) == ["Equilibrium.resetNonorthogonalOptions", "EquilibriumRegion.resetNonorthogonalOptions"], EQ, str(wr), key="write/nonorth")
     for qn in ("Equilibrium.resetNonorthogonalOptions", "EquilibriumRegion.resetNonorthogonalOptions"):
         f = prog.func(EQ, qn)
-        ok = "self.nonorthogonal_options=self.nonorthogonal_options_factory.create(nonorthogonal_settings)" in T(f.module, f.node)
+        ok = K("self.nonorthogonal_options=self.nonorthogonal_options_factory.create(nonorthogonal_settings)") in T(f.module, f.node)
         rep.ob("R1", "%s rebuilds the options from the factory defaults plus the given settings only (no merge with the previous values)" % qn, ok, f.site(), "", key="reset/" + qn)
     f = prog.func(EQ, "Equilibrium.resetNonorthogonalOptions")
-    ok = "forregioninself.regions.values():region.resetNonorthogonalOptions(dict(self.nonorthogonal_options))" in T(f.module, f.node)
+    ok = K("forregioninself.regions.values():region.resetNonorthogonalOptions(dict(self.nonorthogonal_options))") in T(f.module, f.node)
     rep.ob("R1", "the equilibrium propagates the evaluated options to every region", ok, f.site(), "", key="reset/propagate")
     # refusal of orthogonal meshes dominates the region loop
     rp = cg.funcs[root]
@@ -120,18 +121,18 @@ def run(rep, tier):
             continue
         n += 1
         src = T(mod, f.node)
-        inval = "self._reset_cached()" in src or "self._distance=None" in src or "self._distance=" in src
+        inval = K("self._reset_cached()") in src or K("self._distance=None") in src or K("self._distance=") in src
         rep.ob("R3", "%s changes the point list and invalidates or replaces the cached distance" % qn, inval, f.site(), "", key="cache/" + qn)
     rep.floor("R3.mutators", n, 7)
     rc = mod.funcs.get("PsiContour._reset_cached")
-    ok = rc is not None and "self._fine_contour=None" in T(mod, rc.node) and "self._distance=None" in T(mod, rc.node)
+    ok = rc is not None and K("self._fine_contour=None") in T(mod, rc.node) and K("self._distance=None") in T(mod, rc.node)
     rep.ob("R3", "_reset_cached drops both the fine contour and the distance", ok, rc.site() if rc else EQ, "", key="cache/reset")
     for prop_ in ("startInd", "endInd", "extend_lower", "extend_upper"):
         setters = [f for qn, f in mod.funcs.items() if f.cls == "PsiContour" and f.name == prop_ and len(f.node.args.args) == 2]
         ok = bool(setters) and "ifself._%s!=val:self._reset_cached()self._%s=val" % (prop_, prop_) in T(mod, setters[-1].node)
         rep.ob("R3", "setting %s resets the caches when the value changes" % prop_, ok, setters[-1].site() if setters else EQ, "", key="cache/setter/" + prop_)
     rg = mod.funcs.get("PsiContour.regrid")
-    ok = rg is not None and "self.setSelfToContour(self.getRegridded(*args,**kwargs))" in T(mod, rg.node)
+    ok = rg is not None and K("self.setSelfToContour(self.getRegridded(*args,**kwargs))") in T(mod, rg.node)
     rep.ob("R3", "regrid replaces the whole state through the state-copying setter", ok, rg.site() if rg else EQ, "", key="cache/regrid")
     sc = mod.funcs.get("PsiContour.setSelfToContour")
     want = ["points", "startInd", "endInd", "_distance", "psival", "extend_lower", "extend_upper", "_fine_contour"]
